@@ -111,10 +111,18 @@ def marginalRaw (ps : List Rat) (shape : List Nat) (keep : List Nat) : List Nat 
    (allMulti newShape).map fun o =>
      rsum ((idxs.zip ps).filterMap fun (mi, p) => if project mi keep = o then some p else none))
 
+/-- the validation loop of `marginalize`, in the order the code runs it: each index is range-checked
+(`ValueError`) and then removed from the set of axes (`KeyError` when it was removed before). -/
+def margValidate (n : Nat) : List Nat → List Nat → Except Err Unit
+  | [], _ => .ok ()
+  | i :: rest, seen =>
+    if n ≤ i then .error .outOfRange
+    else if seen.contains i then .error .duplicate
+    else margValidate n rest (i :: seen)
+
 /-- `marginalize(outcome_indices_remain)`; default eps_zero 1e-8 in the re-construction. -/
 def marginalize (d : Dist) (remain : List Nat) : Except Err Dist := do
-  if remain.any (fun i => d.shape.length ≤ i) then throw .outOfRange
-  if !remain.Nodup then throw .duplicate
+  margValidate d.shape.length remain []
   let (sh, ps) := marginalRaw d.ps d.shape remain
   ctor ps sh epsValidate
 
@@ -142,7 +150,7 @@ def conditionalRaw (ps : List Rat) (shape : List Nat) (idxs vals : List Nat) :
 def conditionalize (d : Dist) (idxs vals : List Nat) : Except Err Dist := do
   if idxs.length ≠ vals.length then throw .lenMismatch
   if idxs.any (fun i => d.shape.length ≤ i) then throw .indexError
-  if (idxs.zip vals).any (fun (i, v) => d.shape.getD i 0 ≤ v) then throw .indexError
+  if (idxs.zip vals).any (fun iv => match d.shape[iv.1]? with | some l => l ≤ iv.2 | none => true) then throw .indexError
   let (sh, raw) := conditionalRaw d.ps d.shape idxs vals
   let s := rsum raw
   if s = 0 then throw .divZero
@@ -150,15 +158,19 @@ def conditionalize (d : Dist) (idxs vals : List Nat) : Except Err Dist := do
 
 /-! ## ProbDist.__getitem__ (prob_dist.py): `ps.reshape(shape)[i0][i1]…` for a full-length tuple is the row-major entry -/
 
+/-- iterated slicing of the reshaped buffer, `ps.reshape(shape)[i0][i1]…`: index `i` of the leading axis selects the block
+`ps[i·∏rest : (i+1)·∏rest]`; after the last axis a single entry is left. `none` = IndexError. -/
+def sliceGet : List Rat → List Nat → List Nat → Option Rat
+  | ps, [], [] => ps[0]?
+  | ps, l :: ls, i :: is => if i < l then sliceGet ((ps.drop (i * prod ls)).take (prod ls)) ls is else none
+  | _, _, _ => none
+
 /-- `ProbDist.__getitem__(tuple)` for a tuple with one index per axis; `none` = IndexError / ValueError.
-(`reshape` needs `len(ps) = prod shape`; each index must be in range; numpy's negative indices are not modelled.) -/
+(`reshape` needs `len(ps) = prod shape`; numpy's negative indices are not modelled.) -/
 def probDistGet (ps : List Rat) (shape idx : List Nat) : Option Rat :=
   if ps.length ≠ prod shape then none
   else if idx.length ≠ shape.length then none
-  else if (shape.zip idx).any (fun li => li.1 ≤ li.2) then none
-  else match serialFromMulti shape idx with
-    | some s => ps[s]?
-    | none => none
+  else sliceGet ps shape idx
 
 /-! ## driver -/
 
@@ -181,7 +193,8 @@ def ensGet {α : Type} (xs : List α) (shape mi : List Nat) : Option α :=
   | some s => xs[s]?
   | none => none
 
-/-- the loop of `_compose_qoperations_MProcess_StateEnsemble`: one block per old member, appended in order -/
+/-- the loop of `_compose_qoperations_MProcess_StateEnsemble` (its main branch: the `is_zero_dist` branch fills zero objects of the
+same length and the `mode_sampling` branch picks one member per block — neither is modelled): one block per old member, appended in order -/
 def extendLoop {α β : Type} (old : List α) (f : α → List β) : List β := old.flatMap f
 
 /-- the nested loops of `_tensor_product_StateEnsemble_StateEnsemble` -/
